@@ -1,22 +1,31 @@
 """C30 - QUIC streams are demultiplexed onto correctly paired streams (RawQuicLayer).
 
+R30.1 / R30.2 / R30.3 / R30.5 are decided by INTERPRETING the analysed source (mitmlint.pyint, AST only - nothing is imported or run):
+a `RawQuicLayer` record is built by its own `__init__`, its child layers are recording stubs, stream / connection events are fed to
+`_handle_event` and every observable (the two stream-id maps, the ids `QuicStreamLayer.stream_id()` reports, the events each stream's
+child receives, the commands that leave the layer) is compared with a small reference model of "relay one stream onto its paired
+stream".  Nothing depends on the names of locals or private helpers, on branch order, `if` vs `match`, or on where a statement lives.
+
 Decided:
-  R30.1  finite evaluation of `RawQuicLayer.get_next_available_stream_id` (its AST, with the `next_stream_id` table
-         read from `__init__`): for every sequence of allocations over the four (initiator, directionality) classes up
-         to length 6 the returned ids are pairwise distinct, bit 0 = initiator (0 client / 1 server) and bit 1 =
-         directionality (0 bidi / 1 uni) exactly as requested (RFC 9000 s.2.1).
-  R30.2  symbolic path analysis of the stream branch of `RawQuicLayer._handle_event`, case-split on the direction:
-         an unknown stream creates ONE QuicStreamLayer that is registered under its client id (= the event's id for
-         client streams; = a fresh id allocated with is_client=False and the SAME directionality for server streams)
-         and, for server streams, bound to and registered under the event's server id; known streams are looked up in
-         the map of the side the event came from; data / end-of-stream go to that layer's virtual connection of the
-         same side; a reset is re-issued as ResetQuicStream only for the FIN the child sends on the paired stream id,
-         with the peer's error code.  `QuicStreamLayer` stores both ids where `stream_id()` reads them.
-  R30.3  symbolic path analysis of `RawQuicLayer.event_to_child`, case-split on the target side: SendData /
-         CloseConnection on a stream's virtual connection become SendQuicStreamData / StopSendingQuicStream on the REAL
-         connection of the same side with `child_layer.stream_id(<same side>)`, payload = the command's data; OpenConnection
-         allocates the server id with is_client=True and the client stream's directionality, binds it and registers
-         it in `server_stream_ids`.
+  R30.1  finite evaluation of `RawQuicLayer.get_next_available_stream_id` on the state `RawQuicLayer.__init__` builds: for every
+         sequence of allocations over the four (initiator, directionality) classes up to length 5 (thorough: 6) the returned ids are
+         pairwise distinct, bit 0 = initiator (0 client / 1 server) and bit 1 = directionality (0 bidi / 1 uni) exactly as
+         requested (RFC 9000 s.2.1); omitting `is_unidirectional` allocates a bidirectional id.
+  R30.2  bounded exploration (all schedules of legitimate stream events up to a depth, see `EXPLORE`) of `_handle_event` with relaying
+         child stubs, against the reference model: an unknown stream creates exactly ONE QuicStreamLayer, registered under its client
+         id (= the event's id for client streams; = a fresh id with the server-initiator bit and the SAME directionality for
+         server streams) and, for server streams, bound to and registered under the event's server id; a known stream (also a
+         finished one: late RESET after FIN) is attributed to the layer that owns the id ON THAT SIDE - ids of the two connections
+         overlap numerically in the explored worlds; data / end-of-stream reach only that layer's child, on the virtual connection
+         of the side the event came from; a reset is re-issued as ResetQuicStream (peer's error code) exactly for the FIN the child
+         sends on the paired stream; a QUIC connection close ends that side's half of every stream.  `QuicStreamLayer` reports the
+         ids it was created with / bound to (`stream_id(True/False)`).
+  R30.3  same exploration, the commands the child stubs issue on their stream's virtual connections: SendData becomes exactly one
+         SendQuicStreamData(real connection of the SAME side, that side's stream id, the same bytes) while that half may send;
+         a close becomes the FIN (b"", end_stream) there, once; StopSendingQuicStream only targets a half the child closed;
+         no command for a virtual connection leaves the layer untranslated; OpenConnection allocates the server id with the
+         client-initiator bit and the client stream's directionality, unique on the server connection, binds it and registers it
+         in the server map.  Child close styles explored: half close, CloseConnection, CloseTcpConnection(half_close=False).
   R30.4  (seed C30a) the stream-id maps only grow.  Use classification of EVERY occurrence of `client_stream_ids` /
          `server_stream_ids` in the repository, also through local aliases (`stream_ids = A if c else B`, `for m in
          (A, B)`): the attributes are bound once, in `RawQuicLayer.__init__`, to an empty dict; entries are only looked
@@ -25,374 +34,1010 @@ Decided:
          exactly ONE server stream ... for any interleaving": QUIC never reuses a stream id, but events for an id may
          still arrive after both halves finished (RESET_STREAM racing with / answering a FIN or STOP_SENDING, late
          data); membership in these maps is the ONLY thing that lets `_handle_event` attribute such an event to the
-         layer that owns the id (R30.2 shows creation is decided by `event.stream_id in stream_ids`), so a forgotten
-         id makes the late event create a second layer and a second paired stream.  A map that escapes (passed to a
-         callee that is no pure builtin, stored elsewhere, returned) is not modelled -> exit 2.
-  R30.5  (seed C30b) decision table of the two halves' initial capabilities, by finite evaluation (pyint) of the ASTs of
-         `QuicStreamLayer.__init__` (client half) and `QuicStreamLayer.open_server_stream` (server half) for stream ids
-         of all four (initiator, directionality) classes x every state the *other* connection / the copied real
-         connection can be in at that moment: bidirectional -> OPEN / OPEN; unidirectional client-initiated -> client
-         CAN_READ, server CAN_WRITE; unidirectional server-initiated -> client CAN_WRITE, server CAN_READ (RFC 9000
-         s.2.1: only the initiator sends) - a function of the id class ALONE.  Necessary because `event_to_child`
-         forwards SendData / FIN only under `state & CAN_WRITE` and the child relays / finishes by CAN_READ: a half
-         whose capability depends on what already happened on the other half (e.g. the client's FIN processed before
-         the server stream is opened) silently drops the stream's data and FIN, or writes on a receive-only stream.
-         `ConnectionState` members are read from mitmproxy/connection.py.
-NOT decided: aioquic's stream state machine, flow control, datagrams.
+         layer that owns the id, so a forgotten id makes the late event create a second layer and a second paired stream.
+         A map that escapes (passed to a callee that is no pure builtin, stored elsewhere, returned) is not modelled -> exit 2.
+  R30.5  (seed C30b) decision table of the two halves' initial capabilities, by interpretation of `QuicStreamLayer(...)` (client
+         half) and `open_server_stream` (server half) for stream ids of all four (initiator, directionality) classes x every state
+         the *other* half / the copied real connection can be in at that moment: bidirectional -> OPEN / OPEN; unidirectional
+         client-initiated -> client CAN_READ, server CAN_WRITE; unidirectional server-initiated -> client CAN_WRITE, server CAN_READ
+         (RFC 9000 s.2.1: only the initiator sends) - a function of the id class ALONE.  Necessary because the command translation
+         forwards SendData / FIN only under `state & CAN_WRITE` and the child relays / finishes by CAN_READ: a half whose capability
+         depends on what already happened on the other half silently drops the stream's data and FIN, or writes on a receive-only
+         stream.  `ConnectionState` members are read from mitmproxy/connection.py.
+NOT decided: aioquic's stream state machine, flow control, datagrams; schedules longer than the explored depth; peers that violate
+RFC 9000 (data on a stream they may not send on, data after their own FIN, a foreign stream id of the class mitmproxy allocates).
 """
 
 from __future__ import annotations
 
 import ast
+import collections
 import enum
-import itertools
+import re
 
 from ..core import AnalysisError
 from ..core import norm
-from ..model import attr_chain
 from ..model import last_attr
-from ..paths import C
-from ..paths import is_const
-from ..paths import traces_of
+from ..pyint import _Break
+from ..pyint import _Continue
+from ..pyint import _Return
+from ..pyint import ClassRef
+from ..pyint import Func
+from ..pyint import Gen
 from ..pyint import Interp
+from ..pyint import NullLog
 from ..pyint import Raised as PyRaised
 from ..pyint import Rec
 from ..selftest import Mutant
-from ._helpers_D import attr_of
-from ._helpers_D import Concrete
-from ._helpers_D import Raised
-from ._helpers_D import show
-from ._helpers_D import sym
-from ._helpers_D import SymSpec
 
 PROP = "C30"
 REG = {
     "strength": "partial",
-    "technique": "finite evaluation of the stream-id allocator AST + symbolic path analysis (case split on direction) of stream registration "
-    "and of the command translation in RawQuicLayer + repository-wide use classification of the stream-id maps (grow-only) + decision table "
-    "of the stream halves' initial capabilities (pyint evaluation over id classes x states of the other half)",
+    "technique": "interpretation of the analysed source (pyint, AST only): finite evaluation of the stream-id allocator + bounded exploration of "
+    "RawQuicLayer._handle_event over all short schedules of stream events with recording / relaying child stubs against a reference model "
+    "(maps, reported ids, events per child, translated commands) + repository-wide use classification of the stream-id maps (grow-only) + "
+    "decision table of the stream halves' initial capabilities (id classes x states of the other half)",
     "claim": "allocated stream ids are unique with correct initiator/direction bits; a new stream creates exactly one layer registered under "
     "the paired ids of the same directionality; events are routed via the map of their own side; commands on a stream's virtual connection "
     "are translated to the real connection of the same side with that side's stream id; resets hit only the paired stream id; a registered "
     "stream id is never forgotten (late events cannot create a second stream); each half's read/write capability is a function of the "
     "stream id class alone (RFC 9000 table), independent of what already happened on the other half.",
     "note": "stream_is_unidirectional / stream_is_client_initiated are aioquic library predicates (opaque, assumed to implement RFC 9000 bits); "
-    "event.stream_id and allocated ids are ints (never None). Loops unrolled once.",
+    "child layers are stubs that relay like TCPLayer (data to the other half, close as half close / full close); schedules bounded "
+    "(quick: depth 2 over four concurrent streams + depth 3 per stream; thorough: one deeper).",
 }
 
 RAW = "mitmproxy/proxy/layers/quic/_raw_layers.py"
+QEV = "mitmproxy/proxy/layers/quic/_events.py"
+CMDS = "mitmproxy/proxy/commands.py"
+CONN = "mitmproxy/connection.py"
+
+SIDES = ("client", "server")
+OTHER = {"client": "server", "server": "client"}
+ALPHABET = ("SendQuicStreamData", "ResetQuicStream", "StopSendingQuicStream")
+
+
+# ---------------------------------------------------------------------------------------------------
+# generator functions of the analysed source, run as (native) coroutines of the interpreter
+
+
+class NativeGen(Gen):
+    """A call of a repository generator function, advanced statement by statement like CPython does: the body runs up to the next
+    `yield` when the consumer asks for a value, and never twice.  (pyint's own `Gen` replays the body from the start for every value,
+    which is exact only for consumers that do not touch the generator's state and quadratic in the number of yields; the layers
+    analysed here nest four generators deep.)"""
+
+    def __init__(self, interp, f, node, env, depth):
+        Gen.__init__(self, interp, f, node, env, depth)
+        self._g = interp.gen_body(node, env, f.mod, depth)
+
+    def __iter__(self):
+        return self
+
+    def __next__(self):
+        return next(self._g)
+
+
+class LazyInterp(Interp):
+    """pyint.Interp whose generator calls are NativeGen.  `yield` / `yield from` are supported where CPython code has them in practice:
+    as an expression statement or as the whole right-hand side of an assignment, anywhere below if / for / while / match / try / with
+    (suppress, nullcontext).  A yield in any other position is refused by the base interpreter (AnalysisError)."""
+
+    def __init__(self, *a, **k):
+        Interp.__init__(self, *a, **k)
+        self._yields: dict = {}
+
+    def stmt(self, st, env, mod, depth):
+        if isinstance(st, ast.FunctionDef) and (st.args.defaults or any(d is not None for d in st.args.kw_defaults)):
+            # a nested def: its parameter defaults are evaluated now, in the defining scope (the base interpreter evaluates them at the
+            # call, in an empty scope)
+            self.tick()
+            f = Func(mod, st, closure=env)
+            a = st.args
+            names = [p.arg for p in a.posonlyargs + a.args][len(a.posonlyargs + a.args) - len(a.defaults):]
+            f.def_time = {n: self.ev(d, env, mod, depth) for n, d in zip(names, a.defaults)}
+            f.def_time.update({p.arg: self.ev(d, env, mod, depth) for p, d in zip(a.kwonlyargs, a.kw_defaults) if d is not None})
+            env[st.name] = f
+            return
+        Interp.stmt(self, st, env, mod, depth)
+
+    def call_func(self, f, args, kwargs, depth):
+        dt = getattr(f, "def_time", None)
+        if dt:
+            a = f.node.args
+            params = [p.arg for p in a.posonlyargs + a.args]
+            given = set(params[: len(args) + (1 if f.bound is not None else 0)]) | set(kwargs)
+            kwargs = dict(kwargs)
+            kwargs.update({k: v for k, v in dt.items() if k not in given})
+        r = Interp.call_func(self, f, args, kwargs, depth)
+        if type(r) is Gen:
+            return NativeGen(self, r.f, r.node, r.env, r.depth)
+        return r
+
+    def has_yield(self, st) -> bool:
+        k = id(st)
+        if k not in self._yields:
+            found = False
+            todo = [] if isinstance(st, (ast.FunctionDef, ast.AsyncFunctionDef, ast.ClassDef)) else [st]  # (a nested def is its own generator)
+            while todo and not found:
+                n = todo.pop()
+                for c in ast.iter_child_nodes(n):
+                    if isinstance(c, (ast.Yield, ast.YieldFrom)):
+                        found = True
+                        break
+                    if not isinstance(c, (ast.FunctionDef, ast.AsyncFunctionDef, ast.Lambda, ast.ClassDef)):
+                        todo.append(c)
+            self._yields[k] = found
+        return self._yields[k]
+
+    def gen_body(self, node, env, mod, depth):
+        try:
+            yield from self.gblock(node.body, env, mod, depth)
+        except _Return as r:
+            return r.value
+        return None
+
+    def gblock(self, stmts, env, mod, depth):
+        for st in stmts:
+            if self.has_yield(st):
+                yield from self.gstmt(st, env, mod, depth)
+            else:
+                self.stmt(st, env, mod, depth)
+
+    def gyield(self, e, env, mod, depth):
+        """the value of a `yield` / `yield from` expression (consumers of the analysed layers never send)"""
+        if isinstance(e, ast.Yield):
+            yield (self.ev(e.value, env, mod, depth) if e.value is not None else None)
+            return None
+        sub = self.ev(e.value, env, mod, depth)
+        if isinstance(sub, NativeGen):
+            return (yield from sub._g)
+        for x in self.iterate(sub, e.value):
+            yield x
+        return None
+
+    def gstmt(self, st, env, mod, depth):
+        self.tick()
+        v = getattr(st, "value", None)
+        if isinstance(st, ast.Expr) and isinstance(v, (ast.Yield, ast.YieldFrom)):
+            yield from self.gyield(v, env, mod, depth)
+        elif isinstance(st, (ast.Assign, ast.AnnAssign)) and isinstance(v, (ast.Yield, ast.YieldFrom)):
+            got = yield from self.gyield(v, env, mod, depth)
+            for t in st.targets if isinstance(st, ast.Assign) else [st.target]:
+                self.assign(t, got, env, mod, depth)
+        elif isinstance(st, ast.Return) and isinstance(v, (ast.Yield, ast.YieldFrom)):
+            raise _Return((yield from self.gyield(v, env, mod, depth)))
+        elif isinstance(st, ast.If):
+            yield from self.gblock(st.body if self.truthy(self.ev(st.test, env, mod, depth)) else st.orelse, env, mod, depth)
+        elif isinstance(st, (ast.For, ast.While)):
+            broke = False
+            if isinstance(st, ast.For):
+                items = self.iterate(self.ev(st.iter, env, mod, depth), st.iter)
+            else:
+                items = iter(lambda: self.truthy(self.ev(st.test, env, mod, depth)), False)
+            for x in items:
+                self.tick()
+                if isinstance(st, ast.For):
+                    self.assign(st.target, x, env, mod, depth)
+                try:
+                    yield from self.gblock(st.body, env, mod, depth)
+                except _Break:
+                    broke = True
+                    break
+                except _Continue:
+                    continue
+            if not broke:
+                yield from self.gblock(st.orelse, env, mod, depth)
+        elif isinstance(st, ast.Match):
+            subj = self.ev(st.subject, env, mod, depth)
+            for case in st.cases:
+                if self.match(case.pattern, subj, env, mod, depth) and (case.guard is None or self.truthy(self.ev(case.guard, env, mod, depth))):
+                    yield from self.gblock(case.body, env, mod, depth)
+                    break
+        elif isinstance(st, ast.Try):
+            try:
+                try:
+                    yield from self.gblock(st.body, env, mod, depth)
+                except PyRaised as r:
+                    for h in st.handlers:
+                        names = ["BaseException"] if h.type is None else [last_attr(e) for e in (h.type.elts if isinstance(h.type, ast.Tuple) else [h.type])]
+                        if any(self.exc_isa(r.name, n, mod) for n in names):
+                            if h.name:
+                                env[h.name] = f"<exc:{r.name}>"
+                            prev = env.get("$handling")
+                            env["$handling"] = r.name
+                            try:
+                                yield from self.gblock(h.body, env, mod, depth)
+                            finally:
+                                if prev is None:
+                                    env.pop("$handling", None)
+                                else:
+                                    env["$handling"] = prev
+                            break
+                    else:
+                        raise
+                else:
+                    yield from self.gblock(st.orelse, env, mod, depth)
+            finally:
+                if st.finalbody:
+                    if any(self.has_yield(x) for x in st.finalbody):
+                        raise AnalysisError(f"yield inside a finally block is not modelled: {norm(st)[:80]}")
+                    self.block(st.finalbody, env, mod, depth)
+        elif isinstance(st, ast.With) and len(st.items) == 1 and st.items[0].optional_vars is None and isinstance(st.items[0].context_expr, ast.Call) \
+                and last_attr(st.items[0].context_expr.func) in ("suppress", "nullcontext") and not st.items[0].context_expr.keywords:
+            call = st.items[0].context_expr
+            names = [last_attr(a) for a in call.args]
+            try:
+                yield from self.gblock(st.body, env, mod, depth)
+            except PyRaised as r:
+                if last_attr(call.func) == "nullcontext" or not any(self.exc_isa(r.name, n, mod) for n in names):
+                    raise
+        else:
+            raise AnalysisError(f"a yield inside this statement is not modelled: {norm(st)[:100]}")
+
+
+# ---------------------------------------------------------------------------------------------------
+# the abstract world: one RawQuicLayer record, built and driven by interpretation
+
+
+def connection_state_flag(ctx):
+    """the ConnectionState Flag, rebuilt from the class body in mitmproxy/connection.py"""
+    cls = ctx.model.cls(CONN, "ConnectionState")
+    vals = {}
+
+    def ev(e):
+        if isinstance(e, ast.Constant) and isinstance(e.value, int) and not isinstance(e.value, bool):
+            return e.value
+        if isinstance(e, ast.Name) and e.id in vals:
+            return vals[e.id]
+        if isinstance(e, ast.BinOp) and isinstance(e.op, (ast.BitOr, ast.BitAnd, ast.LShift)):
+            a, b = ev(e.left), ev(e.right)
+            return a | b if isinstance(e.op, ast.BitOr) else (a & b if isinstance(e.op, ast.BitAnd) else a << b)
+        raise AnalysisError(f"ConnectionState member value not modelled: {norm(e)}")
+
+    for st in cls.body:
+        if isinstance(st, ast.Assign) and len(st.targets) == 1 and isinstance(st.targets[0], ast.Name):
+            vals[st.targets[0].id] = ev(st.value)
+    ctx.require({"CLOSED", "CAN_READ", "CAN_WRITE", "OPEN"} <= set(vals), f"ConnectionState members changed: {sorted(vals)}")
+    r, w = vals["CAN_READ"], vals["CAN_WRITE"]
+    ctx.require(vals["CLOSED"] == 0 and r and w and not (r & w) and vals["OPEN"] == r | w and bin(r).count("1") == 1 and bin(w).count("1") == 1,
+                f"ConnectionState is no longer CLOSED=0 / two distinct bits / OPEN = both: {vals}")
+    return enum.Flag("ConnectionState", {k: v for k, v in vals.items()})
+
+
+class _Clock:
+    @staticmethod
+    def time():
+        return 1.0
+
+
+def _memoise(model):
+    """`Model.mro` / `Model.exists` stat the working tree on every call and pyint asks for the MRO on every attribute access of a bound
+    record; the tree does not change during a run, so both are memoised on this Model instance (semantically transparent)."""
+    if getattr(model, "_c30_memo", False):
+        return
+
+    def memo(f):
+        cache = {}
+
+        def cached(*a):
+            if a not in cache:
+                cache[a] = f(*a)
+            return cache[a]
+
+        return cached
+
+    for name in ("mro", "exists"):
+        setattr(model, name, memo(getattr(model, name)))
+    model._c30_memo = True
+
+
+class _ErrorCodes(enum.IntEnum):
+    NO_ERROR = 0
+
+
+class _Aioquic:
+    """trusted stand-in for the three names the layer takes from aioquic (however they are imported): RFC 9000 s.2.1 id bits"""
+
+    class quic:
+        class connection:
+            QuicErrorCode = _ErrorCodes
+
+            @staticmethod
+            def stream_is_unidirectional(stream_id):
+                return bool(stream_id & 2)
+
+            @staticmethod
+            def stream_is_client_initiated(stream_id):
+                return not (stream_id & 1)
+
+
+def _snap(roots):
+    """saved state of every record / list / dict / set reachable from ``roots`` (restored in place: identities survive)"""
+    seen, out, todo = set(), [], list(roots)
+    while todo:
+        v = todo.pop()
+        if id(v) in seen:
+            continue
+        if isinstance(v, Rec):
+            seen.add(id(v))
+            d = dict(v.__dict__)
+            out.append((v, d))
+            todo.extend(d.values())
+        elif isinstance(v, (list, set)):
+            seen.add(id(v))
+            out.append((v, type(v)(v)))
+            todo.extend(v)
+        elif isinstance(v, dict):
+            seen.add(id(v))
+            out.append((v, dict(v)))
+            todo.extend(v.values())
+            todo.extend(k for k in v if isinstance(k, Rec))
+        elif isinstance(v, tuple):
+            todo.extend(v)
+    return out
+
+
+def _unsnap(snap):
+    for obj, saved in snap:
+        if isinstance(obj, Rec):
+            obj.__dict__.clear()
+            obj.__dict__.update(saved)
+        elif isinstance(obj, list):
+            obj[:] = saved
+        else:
+            obj.clear()
+            obj.update(saved)
+
+
+class Crash(Exception):
+    """the interpreted layer raised on an input the rule considers legitimate"""
+
+    def __init__(self, name, translating):
+        super().__init__(name)
+        self.name = name
+        self.translating = translating  # a child stub had issued a command in this step: the layer was translating it
+
+
+class World:
+    """A RawQuicLayer record between two real connections.  Child layers are stubs that record what they receive and answer like a
+    relaying TCP layer: Start -> OpenConnection(server) unless the server half is already open; DataReceived(conn, d) ->
+    SendData(other half, d); ConnectionClosed(conn) -> close of the other half in the world's close style."""
+
+    def __init__(self, ctx, CS, close_style="half"):
+        self.model = ctx.model
+        self.CS = CS
+        self.close_style = close_style
+        self.n_sent = 0  # commands issued by child stubs so far (monotone; only compared before / after a step)
+        self.anomalies: list[str] = []
+        m = ctx.model
+        stubs = {}
+        for kind, texts in (("TCPLayer", ("TCPLayer", "tcp.TCPLayer")), ("UDPLayer", ("UDPLayer", "udp.UDPLayer")),
+                            ("NextLayer", ("layer.NextLayer", "NextLayer", "QuicStreamNextLayer"))):
+            for t in texts:
+                stubs[t] = self._child_factory(kind)
+        self.it = LazyInterp(m, trusted_modules={"time": _Clock, "logging": NullLog(), "collections": collections, "aioquic": _Aioquic}, externals=stubs, max_steps=400000)
+        ov = self.it.overrides
+        ov[(RAW, "connection")] = Rec("connection", ConnectionState=CS, Server=self._server_conn)
+        ov[(RAW, "ConnectionState")] = CS
+        ov[(RAW, "Server")] = self._server_conn
+        self.real = {"client": self._conn("Client"), "server": self._conn("Server")}
+        self.top_context = self._context(self.real["client"], self.real["server"])
+        self.me = Rec("RawQuicLayer", _bases=self.bases(RAW, "RawQuicLayer"), _impl=(RAW, "RawQuicLayer"))
+        try:
+            self.it.method(self.me, "__init__", self.top_context, True)
+        except PyRaised as r:
+            raise AnalysisError(f"RawQuicLayer.__init__ raises {r.name} in the abstract world of C30 (not modelled)")
+        for a in ("client_stream_ids", "server_stream_ids"):
+            if not isinstance(self.me.__dict__.get(a), dict):
+                raise AnalysisError(f"RawQuicLayer.__init__ does not bind {a} to a dict (anchor moved)")
+
+    # -- records
+    def bases(self, rel, cls):
+        out = []
+        for _, c in self.model.mro(rel, cls)[1:]:
+            out.append(c.name)
+        return tuple(out)
+
+    def mk(self, rel, cls, **attrs):
+        self.model.cls(rel, cls)  # AnalysisError if the class vanished
+        return Rec(cls, _bases=self.bases(rel, cls), _impl=(rel, cls), **attrs)
+
+    def _conn(self, kind):
+        CS = self.CS
+        c = Rec(kind, state=CS.OPEN, transport_protocol="udp", timestamp_start=1.0, timestamp_end=None, address=("example", 443), connected=True)
+
+        def copy():
+            return Rec(kind, state=c.state, transport_protocol=c.transport_protocol, timestamp_start=c.timestamp_start, timestamp_end=c.timestamp_end,
+                       address=c.address, connected=True)
+
+        object.__setattr__(c, "copy", copy)
+        return c
+
+    def _server_conn(self, **kw):
+        return Rec("Server", state=self.CS.CLOSED, timestamp_start=None, timestamp_end=None, connected=False, **{k: v for k, v in kw.items() if k != "state"})
+
+    def _context(self, client, server):
+        cx = Rec("Context", client=client, server=server, layers=[], options=Rec("Options"))
+
+        def fork():
+            return self._context(cx.client, cx.server)
+
+        object.__setattr__(cx, "fork", fork)
+        return cx
+
+    def _child_factory(self, kind):
+        world = self
+
+        def factory(context, *a, **k):
+            child = Rec(kind, _bases=("Layer",), flow=None, layer=None, context=context, log=[], sent=[])
+
+            def handle_event(event):
+                child.log.append(event)
+                cmds = world.respond(child, event)
+                child.sent.extend(cmds)
+                world.n_sent += len(cmds)
+                return cmds
+
+            handle_event._pyint_accepts_abstract = True
+            object.__setattr__(child, "handle_event", handle_event)
+            object.__setattr__(child, "_handle_event", handle_event)
+            return child
+
+        factory._pyint_accepts_abstract = True
+        return factory
+
+    def respond(self, child, event):
+        if child._cls != "TCPLayer" or not isinstance(event, Rec):
+            return []  # the datagram layer is passive
+        cx = child.context
+
+        def other(conn):
+            if conn is cx.client:
+                return cx.server
+            if conn is cx.server:
+                return cx.client
+            self.anomalies.append(f"a stream's child receives {event._cls} for a connection that is neither its stream's client nor server half")
+            return None
+
+        if event.isa("Start"):
+            return [self.mk(CMDS, "OpenConnection", connection=cx.server)] if cx.server.timestamp_start is None else []
+        if event.isa("DataReceived"):
+            o = other(event.connection)
+            return [self.mk(CMDS, "SendData", connection=o, data=event.data)] if o is not None else []
+        if event.isa("ConnectionClosed"):
+            o = other(event.connection)
+            if o is None:
+                return []
+            if self.close_style == "half":
+                return [self.mk(CMDS, "CloseTcpConnection", connection=o, half_close=True)]
+            if self.close_style == "tcpfull":
+                return [self.mk(CMDS, "CloseTcpConnection", connection=o, half_close=False)]
+            return [self.mk(CMDS, "CloseConnection", connection=o)]
+        return []
+
+    # -- driving
+    def roots(self):
+        return [self.me, self.top_context, self.real["client"], self.real["server"]]
+
+    def fire(self, event):
+        """feed one event to RawQuicLayer._handle_event; the commands that leave the layer"""
+        self.it.steps = 0
+        del self.it.writes[:]
+        before = self.n_sent
+        try:
+            return list(self.it.method(self.me, "_handle_event", event))
+        except PyRaised as r:
+            raise Crash(r.name, self.n_sent > before)
+
+    def stream_event(self, side, sid, kind, payload):
+        conn = self.real[side]
+        if kind == "reset":
+            return self.mk(QEV, "QuicStreamReset", connection=conn, stream_id=sid, error_code=payload)
+        data, fin = {"data": (payload, False), "data+fin": (payload, True), "fin": (b"", True)}[kind]
+        return self.mk(QEV, "QuicStreamDataReceived", connection=conn, stream_id=sid, data=data, end_stream=fin)
+
+    def close_event(self, side):
+        return self.mk(QEV, "QuicConnectionClosed", connection=self.real[side], error_code=0, frame_type=None, reason_phrase="bye")
+
+    def maps(self):
+        out = {}
+        for side in SIDES:
+            mp = self.me.__dict__.get(f"{side}_stream_ids")
+            if not isinstance(mp, dict):
+                raise AnalysisError(f"RawQuicLayer.{side}_stream_ids is no dict any more (anchor moved)")
+            out[side] = mp
+        return out
+
+    def sid_of(self, layer, side):
+        """what `QuicStreamLayer.stream_id(<side is client>)` reports"""
+        try:
+            return self.it.method(layer, "stream_id", side == "client")
+        except PyRaised as r:
+            return f"<raises {r.name}>"
+
+    def side_of_real(self, conn):
+        for s in SIDES:
+            if conn is self.real[s]:
+                return s
+        return "a virtual/unknown connection"
+
+    def new_stream_layer(self, sid):
+        """QuicStreamLayer(<forked context>, force_raw=True, stream_id=sid), interpreted"""
+        mod = self.model.module(RAW)
+        return self.it.apply(ClassRef(mod, self.model.cls(RAW, "QuicStreamLayer")), [self.top_context.fork()], {"force_raw": True, "stream_id": sid}, 0)
 
 
 # ---------------------------------------------------------------------------------------------------
 # R30.1
 
 
-def check_r301(ctx):
-    m = ctx.model
+def check_r301(ctx, CS):
     fn = ctx.func(RAW, "RawQuicLayer.get_next_available_stream_id")
-    init = ctx.func(RAW, "RawQuicLayer.__init__")
-    table = None
-    for st in ast.walk(init):
-        if isinstance(st, ast.Assign) and any(attr_chain(t) == "self.next_stream_id" for t in st.targets):
-            try:
-                table = ast.literal_eval(st.value)
-            except Exception:
-                raise AnalysisError(f"RawQuicLayer.next_stream_id is not initialised with a literal: {norm(st.value)}")
-    ctx.require(isinstance(table, list) and all(isinstance(x, int) for x in table), "RawQuicLayer.__init__ no longer initialises next_stream_id with a list of ints")
-    params = [a.arg for a in fn.args.args]
-    ctx.require(params == ["self", "is_client", "is_unidirectional"], f"get_next_available_stream_id signature changed: {params}")
-    classes = [(c, u) for c in (True, False) for u in (True, False)]
+    ctx.func(RAW, "RawQuicLayer.__init__")
     where = (RAW, "RawQuicLayer.get_next_available_stream_id", fn)
+    w = World(ctx, CS)
+    table = w.me.__dict__.get("next_stream_id")
+    classes = [(c, u) for c in (True, False) for u in (True, False)]
     depth = 6 if ctx.tier == "thorough" else 5
     bad = {}
-    n = 0
-    # per-class behaviour is independent of history only if the rule shows it: enumerate all sequences
-    for seq in itertools.product(range(4), repeat=depth):
-        attrs = {"next_stream_id": list(table)}
-        seen = {}
-        ev = Concrete(self_attrs=attrs, max_steps=20000)
-        for k, ci in enumerate(seq):
-            is_client, uni = classes[ci]
+    n = [0]
+
+    def alloc(**kw):
+        w.it.steps = 0
+        del w.it.writes[:]
+        return w.it.method(w.me, "get_next_available_stream_id", **kw)
+
+    def rec(path, ids, left):
+        for ci, (is_client, uni) in enumerate(classes):
+            seq = path + [ci]
+            snap = _snap(w.roots())
             try:
-                sid = ev.call(fn, is_client, uni)
-            except Raised as r:
-                bad.setdefault("allocation raises", (seq[: k + 1], f"raises {r.name}"))
-                break
-            n += 1
-            if not isinstance(sid, int) or isinstance(sid, bool) or sid < 0:
-                bad.setdefault("allocated id is not a non-negative int", (seq[: k + 1], repr(sid)))
-                break
-            if (sid & 1) != (0 if is_client else 1):
-                bad.setdefault("initiator bit of the allocated id is wrong", (seq[: k + 1], f"id {sid} for is_client={is_client}"))
-            if (sid >> 1 & 1) != (1 if uni else 0):
-                bad.setdefault("directionality bit of the allocated id is wrong", (seq[: k + 1], f"id {sid} for is_unidirectional={uni}"))
-            if sid in seen:
-                bad.setdefault("the same stream id is allocated twice", (seq[: k + 1], f"id {sid} already returned by call #{seen[sid] + 1}"))
-            seen.setdefault(sid, k)
-    ctx.cells += n
+                try:
+                    sid = alloc(is_client=is_client, is_unidirectional=uni)
+                except PyRaised as r:
+                    if r.name == "TypeError" and not path:
+                        raise AnalysisError(f"get_next_available_stream_id(is_client=..., is_unidirectional=...) raises TypeError: signature changed ({r.msg})")
+                    bad.setdefault("allocation raises", (seq, f"raises {r.name}"))
+                    continue
+                n[0] += 1
+                if not isinstance(sid, int) or isinstance(sid, bool) or sid < 0:
+                    bad.setdefault("allocated id is not a non-negative int", (seq, repr(sid)))
+                    continue
+                if (sid & 1) != (0 if is_client else 1):
+                    bad.setdefault("initiator bit of the allocated id is wrong", (seq, f"id {sid} for is_client={is_client}"))
+                if (sid >> 1 & 1) != (1 if uni else 0):
+                    bad.setdefault("directionality bit of the allocated id is wrong", (seq, f"id {sid} for is_unidirectional={uni}"))
+                if sid in ids:
+                    bad.setdefault("the same stream id is allocated twice", (seq, f"id {sid} already returned by call #{ids.index(sid) + 1}"))
+                if left > 1:
+                    rec(seq, ids + [sid], left - 1)
+            finally:
+                _unsnap(snap)
+
+    rec([], [], depth)
+    ctx.cells += n[0]
     for why, (seq, what) in bad.items():
         calls = [f"(is_client={classes[c][0]}, uni={classes[c][1]})" for c in seq]
-        ctx.fail("R30.1", where, why, f"starting from next_stream_id={table}, the allocation sequence {calls}: {what}")
+        ctx.fail("R30.1", where, why, f"starting from the state RawQuicLayer.__init__ builds (next_stream_id={table}), the allocation sequence {calls}: {what}")
     if not bad:
-        ctx.ok("R30.1", f"{4 ** depth} allocation sequences of length {depth} ({n} calls): ids unique, initiator and directionality bits correct")
-    # default of is_unidirectional must be bidirectional
-    d = fn.args.defaults
-    if d:
-        ctx.check(isinstance(d[-1], ast.Constant) and d[-1].value is False, "R30.1", where, "is_unidirectional defaults to False",
-                  "omitting is_unidirectional would allocate a unidirectional id", desc="default directionality = bidirectional")
+        ctx.ok("R30.1", f"every allocation sequence up to length {depth} over the 4 id classes ({n[0]} calls): ids unique, initiator and directionality bits correct")
+    # omitting is_unidirectional must allocate a bidirectional id
+    res = []
+    for is_client in (True, False):
+        snap = _snap(w.roots())
+        try:
+            res.append(alloc(is_client=is_client))
+        except PyRaised as r:
+            res.append(None if r.name == "TypeError" else f"raises {r.name}")
+        finally:
+            _unsnap(snap)
+    if any(x is not None for x in res):  # (a required parameter cannot be forgotten)
+        ctx.check(all(isinstance(x, int) and not (x & 2) for x in res if x is not None), "R30.1", where, "is_unidirectional defaults to False",
+                  f"omitting is_unidirectional allocates {res} (a unidirectional id)", desc="default directionality = bidirectional")
+    else:
+        ctx.ok("R30.1", "is_unidirectional is a required parameter")
 
 
 # ---------------------------------------------------------------------------------------------------
-# R30.2 / R30.3
+# R30.2 / R30.3: reference model + bounded exploration
 
 
-class QuicSpec(SymSpec):
-    def stmt_events(self, stmt, st, depth):
-        out = []
-        v = stmt.value if isinstance(stmt, (ast.Expr, ast.Assign)) else None
-        if isinstance(v, ast.Yield) and isinstance(v.value, ast.Call):
-            out.append(("yield", last_attr(v.value.func), self.args(v.value, st, depth)))
-        elif isinstance(v, ast.Yield) and v.value is not None:
-            out.append(("yield_value", self.value(v.value, st, depth)))
-        elif isinstance(v, ast.YieldFrom) and isinstance(v.value, ast.Call):
-            out.append(("sub", attr_chain(v.value.func), self.args(v.value, st, depth)))
-        elif isinstance(stmt, ast.Expr) and isinstance(v, ast.Call) and isinstance(v.func, ast.Attribute):
-            out.append(("mcall", self.value(v.func.value, st, depth), v.func.attr, self.args(v, st, depth)))
-        if isinstance(stmt, ast.Assign):
-            for t in stmt.targets:
-                if isinstance(t, ast.Subscript):
-                    out.append(("store", self.value(t.value, st, depth), self.value(t.slice, st, depth), self.value(stmt.value, st, depth)))
-        return out
+class RefStream:
+    """what the property says about one relayed stream"""
 
-    def args(self, call, st, depth):
-        return tuple(self.value(a, st, depth) for a in call.args) + tuple(("kw", k.arg, self.value(k.value, st, depth)) for k in call.keywords)
+    def __init__(self, key, origin, uni, sid):
+        self.key, self.origin, self.uni = key, origin, uni
+        self.ids = {origin: sid, OTHER[origin]: None}
+        self.layer = None
+        self.can_recv = {h: (not uni) or h == origin for h in SIDES}  # the peer on side h may send to us (RFC 9000 s.2.1)
+        self.can_send = {h: (not uni) or h != origin for h in SIDES}  # we may send to the peer on side h
+        self.closed = {h: False for h in SIDES}  # that half saw its end of stream
 
-    def events(self, node, st):
-        if isinstance(node, ast.Call) and attr_chain(node.func) in ("self.close_stream_layer", "self.event_to_child"):
-            return [("iter", attr_chain(node.func), self.args(node, st, self._depth))]
-        return []
+    def save(self):
+        return (dict(self.ids), self.layer, dict(self.can_recv), dict(self.can_send), dict(self.closed))
 
-    def cond_event(self, expr, value, st):
-        if isinstance(expr, ast.Compare) and len(expr.ops) == 1:
-            return ("cond", norm(expr), value, self.value(expr.left, st, self._depth), self.value(expr.comparators[0], st, self._depth))
-        return ("cond", norm(expr), value, None, None)
+    def load(self, s):
+        self.ids, self.layer, self.can_recv, self.can_send, self.closed = dict(s[0]), s[1], dict(s[2]), dict(s[3]), dict(s[4])
 
-    def decide_leaf(self, cond, st, depth):
-        # named assumption: stream ids (event.stream_id, allocator results) are ints, never None
-        if isinstance(cond, ast.Compare) and len(cond.ops) == 1 and isinstance(cond.ops[0], (ast.Is, ast.IsNot)):
-            a, b = self.value(cond.left, st, depth), self.value(cond.comparators[0], st, depth)
-            if b == C(None) and (a == sym("event.stream_id") or (isinstance(a, tuple) and a[0] == "call" and a[1].endswith("get_next_available_stream_id"))):
-                return isinstance(cond.ops[0], ast.IsNot)
-        return SymSpec.decide_leaf(self, cond, st, depth)
+    def name(self):
+        return f"{'unidirectional' if self.uni else 'bidirectional'} {self.origin}-initiated stream {self.ids[self.origin]}"
 
 
-def kwargs_of(v, params):
-    """symbolic call -> {param: value} (positional mapped through ``params``)"""
-    if not (isinstance(v, tuple) and v and v[0] == "call"):
-        return None
-    return argmap(v[2], params)
+class Ref:
+    def __init__(self):
+        self.streams: dict = {}  # key -> RefStream, in creation order
+        self.used = {h: set() for h in SIDES}  # stream ids in use on the connection of side h
+        self.conn_closed = {h: False for h in SIDES}
+
+    def save(self):
+        return ({k: s.save() for k, s in self.streams.items()}, {k: s for k, s in self.streams.items()}, {h: set(v) for h, v in self.used.items()}, dict(self.conn_closed))
+
+    def load(self, saved):
+        st, objs, used, cc = saved
+        self.streams = dict(objs)
+        for k, s in self.streams.items():
+            s.load(st[k])
+        self.used = {h: set(v) for h, v in used.items()}
+        self.conn_closed = dict(cc)
 
 
-def argmap(args, params):
-    out = {}
-    pos = [a for a in args if not (isinstance(a, tuple) and a and a[0] == "kw")]
-    if len(pos) > len(params):
-        return None
-    for p, a in zip(params, pos):
-        out[p] = a
-    for a in args:
-        if isinstance(a, tuple) and a and a[0] == "kw":
-            out[a[1]] = a[2]
-    return out
+class Problem:
+    def __init__(self, rule, what, text):
+        self.rule, self.what, self.text = rule, what, text
 
 
-ALLOC = ["is_client", "is_unidirectional"]
+OBLIGATIONS = {  # rule -> obligation -> construct text of the finding (short and stable: it is the finding key)
+    "R30.2": {
+        "pairing": "a new stream creates exactly one layer, registered under its paired ids (same directionality, peer's initiator bit)",
+        "attribution": "an event for a known stream id (also a finished one) goes to the layer owning the id on that side; no second layer",
+        "routing": "data / end of stream reach only the owning stream's child, on the virtual connection of the side they came from",
+        "reset": "a reset is re-issued as ResetQuicStream with the peer's error code exactly for the FIN on the paired stream",
+        "connection-close": "a QUIC connection close ends that side's half of every stream layer",
+        "half-state": "a half loses CAN_READ by the end of stream / reset / close of ITS side, CAN_WRITE by the FIN sent on it / the close of its connection",
+        "crash": "stream events of a legitimate schedule are handled without raising",
+    },
+    "R30.3": {
+        "translation": "SendData / close on a stream's virtual connection -> SendQuicStreamData / FIN / StopSending on the same side's real connection and stream id",
+        "open": "OpenConnection of a stream pairs a fresh server stream id (client-initiator bit, client stream's directionality), bound and registered",
+        "crash": "commands of a stream's child are translated without raising",
+    },
+}
+assert all(len(t) < 158 for o in OBLIGATIONS.values() for t in o.values())
 
 
-def is_alloc(v, is_client, same_direction_as):
-    kw = kwargs_of(v, ALLOC)
-    if kw is None or not v[1].endswith("get_next_available_stream_id"):
-        return False, f"{show(v)} is not an id from get_next_available_stream_id"
-    if kw.get("is_client") != C(is_client):
-        return False, f"id allocated with is_client={show(kw.get('is_client'))}, must be {is_client} (initiator bit)"
-    u = kw.get("is_unidirectional")
-    if not (isinstance(u, tuple) and u[0] == "call" and u[1] == "stream_is_unidirectional" and u[2] == (same_direction_as,)):
-        return False, f"id allocated with is_unidirectional={show(u) if u is not None else 'default (bidirectional)'}, must be stream_is_unidirectional({show(same_direction_as)})"
-    return True, ""
+class Explorer:
+    def __init__(self, ctx, CS, close_style):
+        self.w = World(ctx, CS, close_style)
+        self.ref = Ref()
+        self.style = close_style
+        self.problems: list[Problem] = []
+        self.nodes = 0
+        self.seen = collections.Counter()
 
+    # -- reference semantics
+    def ref_close(self, s, h, log, outs, stops):
+        """the layer ends half ``h`` of stream ``s`` (end of stream / reset / connection close from side h): the child hears it once and
+        closes the other half; under a full close the other half ends too and the child closes ``h`` in turn"""
+        if s.closed[h]:
+            return
+        s.closed[h] = True
+        s.can_recv[h] = False
+        log.append(("ConnectionClosed", h))
+        o = OTHER[h]
+        if s.can_send[o]:
+            s.can_send[o] = False
+            outs.append(("SendQuicStreamData", o, s.ids[o], b"", True))
+        if self.style != "half":
+            stops.add((o, s.ids[o]))
+            self.ref_close(s, o, log, outs, stops)
 
-def check_r302(ctx):
-    m = ctx.model
-    fn = ctx.func(RAW, "RawQuicLayer._handle_event")
-    where = (RAW, "RawQuicLayer._handle_event", fn)
-    loop_vars = SymSpec.loop_vars_of(fn)
-    EID = sym("event.stream_id")
-    seen = {"create": 0, "lookup": 0, "data": 0, "end": 0, "reset": 0}
-    for from_client in (True, False):
-        side = "client" if from_client else "server"
-        own_map = sym(f"self.{side}_stream_ids")
-        spec = QuicSpec(loop_vars=loop_vars, forced={"from_client": from_client})
-        traces, eng = traces_of(fn, spec)
-        ctx.paths += len(traces)
-        for trace, how, st in traces:
-            conds = {e[1]: e[2] for e in trace if e[0] == "cond"}
-            if not conds.get("isinstance(event, QuicStreamEvent)") or how != "return":
-                continue
-            known = conds.get("event.stream_id in stream_ids")
-            if known is None:
-                continue  # the second conjunct of the branch condition was false: another branch handled the event
-            stores = [e for e in trace if e[0] == "store"]
-            layers = [e for e in stores if e[1] in (sym("self.client_stream_ids"), sym("self.server_stream_ids"))]
-            opens = [e for e in trace if e[0] == "mcall" and e[2] == "open_server_stream"]
-            # which layer do the forwarding statements use?
-            if known:
-                seen["lookup"] += 1
-                SL = ("idx", own_map, EID)
-                ctx.check(not layers and not opens, "R30.2", where, "known stream: no new registration",
-                          f"[from {side}] an already registered stream id registers again: {[(show(e[1]), show(e[2])) for e in layers]}", desc=f"[from {side}] known stream only looked up")
-            else:
-                seen["create"] += 1
-                news = [e for e in layers if isinstance(e[3], tuple) and e[3][0] == "call" and e[3][1] == "QuicStreamLayer"]
-                Ls = {e[3] for e in news}
-                if len(Ls) != 1:
-                    ctx.fail("R30.2", where, "a new stream creates exactly one registered QuicStreamLayer", f"[from {side}] {len(Ls)} distinct stream layers are registered for one new stream ({[(show(e[1]), show(e[2])) for e in layers]})")
-                    continue
-                SL = next(iter(Ls))
-                kw = kwargs_of(SL, ["context", "force_raw", "stream_id"])
-                cid = kw.get("stream_id") if kw else None
-                cl = [e for e in layers if e[1] == sym("self.client_stream_ids")]
-                sv = [e for e in layers if e[1] == sym("self.server_stream_ids")]
-                if from_client:
-                    ok = cid == EID and [(e[2], e[3]) for e in cl] == [(EID, SL)] and not sv and not opens
-                    ctx.check(ok, "R30.2", where, "client stream: layer(stream_id=event.stream_id) registered under event.stream_id only",
-                              f"[from client] new client stream: layer client id {show(cid)}, client map {[(show(e[2])) for e in cl]}, server map {[(show(e[2])) for e in sv]}, "
-                              f"open_server_stream {[show(a) for e in opens for a in e[3]]}; expected client id = event.stream_id, no server id yet", desc="[from client] new stream registered under its own id")
-                else:
-                    good, why = is_alloc(cid, False, EID)
-                    ok = good and [(e[2], e[3]) for e in cl] == [(cid, SL)] and [(e[2], e[3]) for e in sv] == [(EID, SL)] and [(e[1], e[3]) for e in opens] == [(SL, (EID,))]
-                    if good and not ok:
-                        why = (f"client map {[(show(e[2])) for e in cl]}, server map {[(show(e[2])) for e in sv]}, open_server_stream {[show(a) for e in opens for a in e[3]]}; "
-                               "expected: client map[new id], server map[event.stream_id], open_server_stream(event.stream_id), all for the same layer")
-                    ctx.check(ok, "R30.2", where, "server stream: client id allocated (is_client=False, same directionality), both maps registered, server id bound",
-                              f"[from server] new server-initiated stream: {why}", desc="[from server] new stream: paired ids registered in both maps")
-            # forwarding
-            conn = attr_of(SL, side)
-            for e in trace:
-                if e[0] == "sub" and e[1] == "self.event_to_child" and len(e[2]) == 2 and isinstance(e[2][1], tuple) and e[2][1][0] == "call" and e[2][1][1] == "events.DataReceived":
-                    seen["data"] += 1
-                    a = e[2][1][2]
-                    ok = e[2][0] == SL and a == (conn, sym("event.data"))
-                    ctx.check(ok, "R30.2", where, "stream data goes to the stream's layer on its own side's virtual connection",
-                              f"[from {side}] data is delivered as DataReceived({', '.join(show(x) for x in a)}) to {show(e[2][0])}; expected ({show(conn)}, event.data) to the stream's layer {show(SL)}",
-                              desc=f"[from {side}] data -> DataReceived(layer.{side}, event.data)")
-                if (e[0] in ("sub", "iter")) and e[1] == "self.close_stream_layer":
-                    seen["end"] += 1
-                    ok = e[2] == (SL, C(from_client))
-                    ctx.check(ok, "R30.2", where, "end of stream / reset closes the same side of the stream's layer",
-                              f"[from {side}] close_stream_layer({', '.join(show(x) for x in e[2])}); expected ({show(SL)}, {from_client})", desc=f"[from {side}] end/reset closes layer.{side}")
-            resets = [e for e in trace if e[0] == "yield" and e[1] == "ResetQuicStream"]
-            for e in resets:
-                seen["reset"] += 1
-                CMD = ("elem", ("call", "self.close_stream_layer", (SL, C(from_client)), 0))
-                kw = argmap(e[2], ["connection", "stream_id", "error_code"])
-                paired = [c for c in trace if c[0] == "cond" and c[2] is True and c[3] == attr_of(CMD, "stream_id")
-                          and isinstance(c[4], tuple) and c[4][:3] == ("call", "stream_layer.stream_id", (C(not from_client),))]
-                ok = kw is not None and kw.get("connection") == attr_of(CMD, "connection") and kw.get("stream_id") == attr_of(CMD, "stream_id") and kw.get("error_code") == sym("event.error_code") and len(paired) >= 1
-                ctx.check(ok, "R30.2", where, "reset re-issued on the paired stream id with the peer's error code",
-                          f"[from {side}] ResetQuicStream({', '.join(show(x) for x in e[2])}) guarded by {[c[1] for c in trace if c[0] == 'cond' and 'command' in c[1] and c[2]]}; "
-                          f"expected the child's FIN command's connection/stream_id, compared with stream_layer.stream_id({not from_client}), and event.error_code",
-                          desc=f"[from {side}] reset -> ResetQuicStream(paired id, event.error_code)")
-    need = {"create": 2, "lookup": 2, "data": 2, "end": 4, "reset": 2}
-    if not ctx.findings:
-        for k, n in need.items():
-            ctx.require(seen[k] >= n, f"_handle_event: only {seen[k]} '{k}' paths analysed (expected >= {n})")
-    # QuicStreamLayer id storage
-    qi = ctx.func(RAW, "QuicStreamLayer.__init__")
-    qo = ctx.func(RAW, "QuicStreamLayer.open_server_stream")
-    qs = ctx.func(RAW, "QuicStreamLayer.stream_id")
-    res = {}
-    for client in (True, False):
+    # -- observation
+    def norm_out(self, cmd):
+        if not isinstance(cmd, Rec):
+            return ("?", repr(cmd))
+        d = cmd.__dict__
+        side = self.w.side_of_real(d.get("connection"))
+        if cmd.isa("SendQuicStreamData"):
+            return ("SendQuicStreamData", side, d.get("stream_id"), d.get("data"), d.get("end_stream"))
+        if cmd.isa("ResetQuicStream"):
+            return ("ResetQuicStream", side, d.get("stream_id"), d.get("error_code"))
+        if cmd.isa("StopSendingQuicStream"):
+            return ("StopSendingQuicStream", side, d.get("stream_id"))
+        return (cmd._cls, side)
+
+    def norm_log(self, s, ev):
+        if not isinstance(ev, Rec):
+            return ("?", repr(ev))
+        L = s.layer
+        if ev.isa("ConnectionEvent") or "connection" in ev.__dict__:
+            c = ev.__dict__.get("connection")
+            half = "client" if c is L.__dict__.get("client") else "server" if c is L.__dict__.get("server") else "a foreign connection"
+            if ev.isa("DataReceived"):
+                return ("DataReceived", half, ev.__dict__.get("data"))
+            if ev.isa("ConnectionClosed"):
+                return ("ConnectionClosed", half)
+            return (ev._cls, half)
+        if ev.isa("OpenConnectionCompleted"):
+            cmd = ev.__dict__.get("command")
+            ok = isinstance(cmd, Rec) and cmd.isa("OpenConnection") and ev.__dict__.get("reply") is None
+            return ("OpenConnectionCompleted",) if ok else ("OpenConnectionCompleted", "with a failure / for another command")
+        return (ev._cls,)
+
+    @staticmethod
+    def child_of(layer):
+        ch = layer.__dict__.get("child_layer")
+        if not (isinstance(ch, Rec) and isinstance(ch.__dict__.get("log"), list)):
+            raise AnalysisError("QuicStreamLayer.child_layer is not the rule's child stub (anchor moved: the stream layer no longer keeps its child in `child_layer`)")
+        return ch
+
+    # -- one step
+    def step(self, ev):
+        """run one event, compare with the reference; -> problems (empty: the world and the reference agree and may go on)"""
+        w, ref = self.w, self.ref
+        P: list[Problem] = []
+        kind = ev[0]
+        if kind == "stream":
+            _, side, key, origin, uni, sid, what, payload = ev
+            s = ref.streams.get(key)
+            new = s is None
+            event = w.stream_event(side, sid if new or side == origin else s.ids[side], what, payload)
+            evtext = f"{what} from the {side} on {('a new ' if new else '') + ('uni' if uni else 'bidi')} {origin}-initiated stream {event.stream_id}"
+        else:
+            _, side = ev
+            s, new = None, False
+            event = w.close_event(side)
+            evtext = f"QUIC connection closed by the {side}"
+        known = [(t, len(self.child_of(t.layer).log), len(self.child_of(t.layer).sent)) for t in ref.streams.values()]
+        known_layers = {id(t.layer) for t in ref.streams.values()}
+        n_anom = len(w.anomalies)
         try:
-            res[client] = Concrete(self_attrs={"_client_stream_id": 1001, "_server_stream_id": 2002}).call(qs, client)
-        except Raised as r:
-            res[client] = f"raises {r.name}"
-    ctx.check(res == {True: 1001, False: 2002}, "R30.2", (RAW, "QuicStreamLayer.stream_id", qs), "stream_id(client) selects the client / server id",
-              f"stream_id(True)/stream_id(False) evaluate to {res[True]}/{res[False]} for client id 1001 and server id 2002", desc="stream_id(client) -> client id, stream_id(False) -> server id")
-    for f, attr, param in ((qi, "self._client_stream_id", "stream_id"), (qo, "self._server_stream_id", "server_stream_id")):
-        traces, eng = traces_of(f, SymSpec())
-        finals = {st.get(attr) for t, how, st in traces if how == "return"}
-        ctx.check(finals == {sym(param)}, "R30.2", (RAW, f"QuicStreamLayer.{f.name}", f), f"{attr} = {param}",
-                  f"{f.name} leaves {attr} = {[show(v) for v in finals]}: stream_id() would report another id than the one registered", desc=f"{f.name}: {attr} <- {param}")
-
-
-def check_r303(ctx):
-    fn = ctx.func(RAW, "RawQuicLayer.event_to_child")
-    where = (RAW, "RawQuicLayer.event_to_child", fn)
-    ctx.require([a.arg for a in fn.args.args] == ["self", "child_layer", "event"], "event_to_child signature changed")
-    loop_vars = SymSpec.loop_vars_of(fn)
-    CMD = ("elem", ("call", "child_layer.handle_event", (sym("event"),), 0))
-    CH = sym("child_layer")
-    seen = {"data": 0, "fin": 0, "stop": 0, "open": 0}
-    for to_client in (True, False):
-        side = "client" if to_client else "server"
-        real = sym(f"self.context.{side}")
-        spec = QuicSpec(loop_vars=loop_vars, forced={"to_client": to_client})
-        traces, eng = traces_of(fn, spec)
-        ctx.paths += len(traces)
-        for trace, how, st in traces:
-            if how != "return":
-                continue
-            conds = {e[1]: e[2] for e in trace if e[0] == "cond"}
-            if not conds.get("isinstance(child_layer, QuicStreamLayer)"):
-                continue
-            for e in trace:
-                if e[0] != "yield" or e[1] not in ("SendQuicStreamData", "StopSendingQuicStream", "ResetQuicStream"):
+            out = w.fire(event)
+        except Crash as c:
+            rule = "R30.3" if c.translating else "R30.2"
+            return [Problem(rule, "crash", f"{evtext}: the layer raises {c.name}" + (" while translating a command of the stream's child" if c.translating else ""))]
+        for a in w.anomalies[n_anom:]:
+            P.append(Problem("R30.2", "routing", f"{evtext}: {a}"))
+        maps = w.maps()
+        layers = {}
+        for mp in maps.values():
+            for v in mp.values():
+                if isinstance(v, Rec):
+                    layers[id(v)] = v
+        fresh = [v for k, v in layers.items() if k not in known_layers]
+        # ---- creation / attribution
+        if not new and fresh:
+            P.append(Problem("R30.2", "attribution", f"{evtext}: {len(fresh)} new stream layer(s) registered although "
+                             + (f"the {s.name()} already owns that id (it is no longer found in the {side} map)" if s is not None else "no stream event arrived")))
+            return P
+        if new:
+            if len(fresh) != 1:
+                P.append(Problem("R30.2", "pairing", f"{evtext}: {len(fresh)} distinct stream layers are registered for one new stream (client map {sorted(maps['client'])}, server map {sorted(maps['server'])})"))
+                return P
+            s = RefStream(key, origin, uni, sid)
+            s.layer = L = fresh[0]
+            if not L.isa("QuicStreamLayer"):
+                raise AnalysisError(f"the layer registered for a new stream is a {L._cls}, not a QuicStreamLayer (not modelled)")
+            self.child_of(L)
+            o = OTHER[origin]
+            ref.used[origin].add(sid)
+            got = w.sid_of(L, origin)
+            if got != sid:
+                P.append(Problem("R30.2", "pairing", f"{evtext}: the new layer reports stream_id({origin == 'client'}) = {got}, not the event's id {sid}"))
+            oid = w.sid_of(L, o)
+            rule, what_ = ("R30.2", "pairing") if origin == "server" else ("R30.3", "open")
+            how = "allocated for the client side of a server-initiated stream" if origin == "server" else "allocated by OpenConnection for the server side of a client-initiated stream"
+            if not isinstance(oid, int) or isinstance(oid, bool):
+                P.append(Problem(rule, what_, f"{evtext}: the layer has no {o} stream id afterwards (stream_id({o == 'client'}) = {oid}); expected one {how}"))
+                return P
+            s.ids[o] = oid
+            if (oid & 1) != (1 if origin == "server" else 0):
+                P.append(Problem(rule, what_, f"{evtext}: the {o} stream id {oid} {how} has the wrong initiator bit (must be {'server' if origin == 'server' else 'client'}-initiated like the peer's stream)"))
+            if bool(oid & 2) != uni:
+                P.append(Problem(rule, what_, f"{evtext}: the {o} stream id {oid} {how} is {'uni' if oid & 2 else 'bi'}directional, the stream it is paired with ({sid}) is {'uni' if uni else 'bi'}directional"))
+            if oid in ref.used[o]:
+                P.append(Problem(rule, what_, f"{evtext}: the {o} stream id {oid} {how} is already in use on the {o} connection"))
+            ref.used[o].add(oid)
+            ref.streams[key] = s
+            known.append((s, 0, 0))
+        # ---- the maps: exactly the paired ids of every stream, each bound to its own layer
+        for h in SIDES:
+            want = {t.ids[h]: t for t in ref.streams.values() if t.ids[h] is not None}
+            have = maps[h]
+            for k in sorted(set(want) | set(have), key=repr):
+                t = want.get(k)
+                if t is not None and have.get(k) is t.layer:
                     continue
-                kw = argmap(e[2], ["connection", "stream_id", "data", "end_stream"] if e[1] == "SendQuicStreamData" else ["connection", "stream_id", "error_code"])
-                if kw is None:
-                    raise AnalysisError(f"event_to_child: cannot read the arguments of {e[1]}: {e[2]}")
-                sid = kw.get("stream_id")
-                own = isinstance(sid, tuple) and sid[0] == "call" and sid[1] == "child_layer.stream_id" and argmap(sid[2], ["client"]) == {"client": C(to_client)}
-                ok = kw.get("connection") == real and own
-                what = "data"
-                if e[1] == "SendQuicStreamData":
-                    if conds.get("isinstance(command, commands.SendData)"):
-                        seen["data"] += 1
-                        ok = ok and kw.get("data") == attr_of(CMD, "data") and kw.get("end_stream", C(False)) == C(False)
-                    else:
-                        seen["fin"] += 1
-                        what = "FIN"
-                        ok = ok and kw.get("data") == C(b"") and kw.get("end_stream") == C(True)
+                owner = t or next((x for x in ref.streams.values() if x.layer is have.get(k)), None)
+                rule, what_ = ("R30.3", "open") if (h == "server" and owner is not None and owner.origin == "client") else ("R30.2", "pairing" if new and owner is s else "attribution")
+                if t is None:
+                    P.append(Problem(rule, what_, f"{evtext}: the {h} map has an entry {k!r} that is no {h} stream id of " + (f"the {owner.name()} it points to (its {h} id is {owner.ids[h]})" if owner else "any stream")))
+                elif k not in have:
+                    P.append(Problem(rule, what_, f"{evtext}: the {h} stream id {k} of the {t.name()} is not (no longer) registered in the {h} map: a later event for it creates a second layer"))
                 else:
-                    seen["stop"] += 1
-                    what = "STOP_SENDING"
-                ctx.check(ok, "R30.3", where, f"{what} for the stream's virtual {side} connection -> real {side} connection, that side's stream id",
-                          f"[to {side}] {e[1]}({', '.join(show(x) for x in e[2])}); expected connection {show(real)}, stream id child_layer.stream_id({to_client})"
-                          + (", payload command.data" if what == "data" else ""), desc=f"[to {side}] {what} -> {e[1]}(real {side} conn, {side} stream id)")
-            if conds.get("isinstance(command, commands.OpenConnection)") and not to_client and st.has("0:stream_id"):
-                # (st.has: the translating branch binds the local `stream_id`; the pass-through branch tests the same condition text)
-                seen["open"] += 1
-                stores = [e for e in trace if e[0] == "store" and e[1] == sym("self.server_stream_ids")]
-                opens = [e for e in trace if e[0] == "mcall" and e[2] == "open_server_stream"]
-                if len(stores) != 1:
-                    ctx.fail("R30.3", where, "OpenConnection registers the new server stream id", f"OpenConnection on a stream registers {len(stores)} server stream ids")
+                    P.append(Problem(rule, what_, f"{evtext}: {h} map[{k}] is not the layer of the {t.name()}"))
+        if any(p.what in ("pairing", "open", "attribution") for p in P):
+            return P
+        # ---- what the reference expects of this step
+        logs = {t.key: [] for t in ref.streams.values()}
+        outs, stops = [], set()
+        if kind == "stream":
+            o = OTHER[side]
+            if new:
+                logs[key].append(("Start",))
+                if origin == "client":
+                    logs[key].append(("OpenConnectionCompleted",))
+            if what in ("data", "data+fin"):
+                logs[key].append(("DataReceived", side, payload))
+                if s.can_send[o]:
+                    outs.append(("SendQuicStreamData", o, s.ids[o], payload, False))
+            if what in ("data+fin", "fin", "reset"):
+                sub = []
+                self.ref_close(s, side, logs[key], sub, stops)
+                if what == "reset":
+                    sub = [("ResetQuicStream", o, s.ids[o], payload) if (e[0] == "SendQuicStreamData" and e[1] == o and e[4]) else e for e in sub]
+                outs += sub
+        else:
+            ref.conn_closed[side] = True
+            for t in ref.streams.values():
+                t.can_send[side] = False
+                self.ref_close(t, side, logs[t.key], [], stops)  # (empty FINs are swallowed: the connection is gone)
+        # ---- routing: what every child heard
+        for t, n_log, n_sent in known:
+            ch = self.child_of(t.layer)
+            got = [self.norm_log(t, e) for e in ch.log[n_log:]]
+            if got != logs[t.key]:
+                what_ = "connection-close" if kind != "stream" else "routing"
+                mine = " (the stream the event belongs to)" if t is s else " (ANOTHER stream)"
+                P.append(Problem("R30.2", what_, f"{evtext}: the child of the {t.name()}{mine} receives {got}, expected {logs[t.key]}"))
+        # ---- the halves' capabilities (what the children and the translation go by)
+        CS = w.CS
+        for t in ref.streams.values():
+            for h in SIDES:
+                c = t.layer.__dict__.get(h)
+                st = c.__dict__.get("state") if isinstance(c, Rec) else None
+                if not isinstance(st, CS):
+                    raise AnalysisError(f"QuicStreamLayer.{h}.state is no ConnectionState after a step ({st!r}): not modelled")
+                want = (CS.CAN_READ if t.can_recv[h] else CS.CLOSED) | (CS.CAN_WRITE if t.can_send[h] else CS.CLOSED)
+                if st != want:
+                    P.append(Problem("R30.2", "half-state", f"{evtext}: the {h} half of the {t.name()} is {st.name} afterwards, expected {want.name}"))
+        # ---- translation: what left the layer
+        real = [self.norm_out(c) for c in out]
+        for c, nrm in zip(out, real):
+            if isinstance(c, Rec) and c.isa("ConnectionCommand") and nrm[1] not in SIDES:
+                P.append(Problem("R30.3", "translation", f"{evtext}: a {c._cls} for {nrm[1]} leaves the layer untranslated"))
+        got = [e for e in real if e[0] in ALPHABET and e[0] != "StopSendingQuicStream"]
+        if got != outs:
+            def sans(xs):  # a reset and the FIN it replaces, made equal
+                return [("FIN",) + e[1:3] if (e[0] == "ResetQuicStream" or (e[0] == "SendQuicStreamData" and e[4] and not e[3])) else e for e in xs]
+
+            reset_only = sans(got) == sans(outs)  # the lists differ only in FIN vs reset / in the error code
+            rule, what_ = ("R30.2", "reset") if reset_only else ("R30.3", "translation")
+            P.append(Problem(rule, what_, f"{evtext}: the layer emits {self.show(got)}, expected {self.show(outs)}" + (f" (ids of this stream: client {s.ids['client']}, server {s.ids['server']})" if s else "")))
+        for e in real:
+            if e[0] == "StopSendingQuicStream" and (e[1], e[2]) not in stops:
+                P.append(Problem("R30.3", "translation", f"{evtext}: StopSendingQuicStream targets stream {e[2]} on the {e[1]} connection, which is no half the stream's child closed in this step ({sorted(stops)})"))
+        self.seen[("new " if new else "") + (what if kind == "stream" else "connection-close")] += 1
+        return P
+
+    @staticmethod
+    def show(xs):
+        out = []
+        for e in xs:
+            if e[0] == "SendQuicStreamData":
+                out.append(f"SendQuicStreamData({e[1]}, stream {e[2]}, {e[3]!r}{', end_stream' if e[4] else ''})")
+            elif e[0] == "ResetQuicStream":
+                out.append(f"ResetQuicStream({e[1]}, stream {e[2]}, error_code={e[3]})")
+            else:
+                out.append(str(e))
+        return "[" + ", ".join(out) + "]"
+
+    # -- schedules
+    def run(self, ev, path):
+        """one step outside the search (set-up); -> ok"""
+        self.nodes += 1
+        P = self.step(ev)
+        for p in P:
+            p.text = f"[child close style: {self.style}] after {path or 'nothing'}: {p.text}"
+        self.problems += P
+        return not P
+
+    def alphabet(self, streams, with_close):
+        ref = self.ref
+        for key, origin, uni, sid in streams:
+            s = ref.streams.get(key)
+            halves = [origin] if (s is None or uni) else list(SIDES)
+            for h in halves:
+                if ref.conn_closed[h]:
                     continue
-                nid = stores[0][2]
-                csid = None
-                kw = kwargs_of(nid, ALLOC)
-                if kw and isinstance(kw.get("is_unidirectional"), tuple) and kw["is_unidirectional"][0] == "call" and len(kw["is_unidirectional"][2]) == 1:
-                    csid = kw["is_unidirectional"][2][0]
-                is_cid = isinstance(csid, tuple) and csid[0] == "call" and csid[1] == "child_layer.stream_id" and argmap(csid[2], ["client"]) == {"client": C(True)}
-                good, why = is_alloc(nid, True, csid) if is_cid else (False, f"directionality is taken from {show(csid) if csid else 'nothing'}, must be that of child_layer.stream_id(client=True)")
-                ok = good and stores[0][3] == CH and [(e[1], e[3]) for e in opens] == [(CH, (nid,))]
-                if good and not ok:
-                    why = f"registered layer {show(stores[0][3])}, open_server_stream {[(show(e[1]), [show(a) for a in e[3]]) for e in opens]}"
-                ctx.check(ok, "R30.3", where, "OpenConnection: server id allocated (is_client=True, client stream's directionality), bound and registered",
-                          f"OpenConnection of a stream layer: {why}", desc="OpenConnection -> paired server stream id allocated, bound, registered")
-    need = {"data": 2, "fin": 2, "stop": 2, "open": 1}
-    if not ctx.findings:
+                kinds = ("reset",) if (s is not None and s.closed[h]) else ("data", "data+fin", "fin", "reset")  # after its FIN a peer may still reset
+                for k in kinds:
+                    yield ("stream", h, key, origin, uni, sid, k, 0x1234 if k == "reset" else (b"<" + key.encode() + b">") if k != "fin" else b"")
+        if with_close:
+            for h in SIDES:
+                if not ref.conn_closed[h]:
+                    yield ("close", h)
+
+    @staticmethod
+    def describe(ev):
+        if ev[0] == "close":
+            return f"close({ev[1]})"
+        return f"{ev[6]}({ev[1]}, {ev[2]})"
+
+    def explore(self, streams, depth, with_close, path=()):
+        if depth == 0 or len(self.problems) > 12:
+            return
+        for ev in list(self.alphabet(streams, with_close)):
+            snap_w, snap_r = _snap(self.w.roots()), self.ref.save()
+            here = path + (self.describe(ev),)
+            if self.run(ev, " -> ".join(path)):
+                self.explore(streams, depth - 1, with_close, here)
+            _unsnap(snap_w)
+            self.ref.load(snap_r)
+
+
+# four streams that are open before the search starts (ids chosen so that afterwards the ids of a stream's two halves differ and the id
+# spaces of the two connections overlap: a lookup in the wrong map finds ANOTHER stream's layer) and four streams under test
+DECOYS = (("s5", "server", False, 5), ("s7", "server", True, 7), ("c4", "client", False, 4), ("c6", "client", True, 6))
+TESTED = (("c12", "client", False, 12), ("s13", "server", False, 13), ("c14", "client", True, 14), ("s15", "server", True, 15))
+
+
+def check_r3023(ctx, CS):
+    he = ctx.func(RAW, "RawQuicLayer._handle_event")
+    where2 = (RAW, "RawQuicLayer._handle_event", he)
+    where3 = (RAW, "RawQuicLayer.event_to_child", ctx.func(RAW, "RawQuicLayer.event_to_child")) if ctx.model.has(RAW, "RawQuicLayer.event_to_child") else where2
+    thorough = ctx.tier == "thorough"
+    problems: list[Problem] = []
+    seen = collections.Counter()
+    nodes = 0
+    plans = {"half": (2 + thorough, 3 + thorough), "full": (1 + thorough, 3), "tcpfull": (1, 2)}
+    for style, (d_all, d_one) in plans.items():
+        ex = Explorer(ctx, CS, style)
+        ok = True
+        done = []
+        for key, origin, uni, sid in DECOYS:
+            ok = ok and ex.run(("stream", origin, key, origin, uni, sid, "data", b"<" + key.encode() + b">"), " -> ".join(done))
+            done.append(f"data({origin}, {key})")
+        if ok:
+            ex.explore(TESTED, d_all, True, tuple(done))
+            for t in TESTED:
+                if d_one > d_all:
+                    ex.explore((t,), d_one, False, tuple(done))
+        problems += ex.problems
+        seen.update(ex.seen)
+        nodes += ex.nodes
+    ctx.paths += nodes
+    ctx.bounds.append(f"R30.2/R30.3: schedules of stream events explored per child close style (all four tested streams together, one stream alone): {plans}")
+    first = {}
+    for p in problems:
+        first.setdefault((p.rule, p.what), p)
+    for rule, obs in OBLIGATIONS.items():
+        for what, text in obs.items():
+            p = first.get((rule, what))
+            ctx.check(p is None, rule, where2 if rule == "R30.2" else where3, text, p.text if p else "", desc=f"{what}: {text}")
+    if not problems:
+        need = {"new data": 8, "new reset": 4, "data": 20, "data+fin": 20, "fin": 20, "reset": 20, "connection-close": 6}
         for k, n in need.items():
-            ctx.require(seen[k] >= n, f"event_to_child: only {seen[k]} '{k}' paths analysed (expected >= {n})")
+            ctx.require(seen[k] >= n, f"R30.2/R30.3: only {seen[k]} '{k}' steps explored (expected >= {n}): {dict(seen)}")
+        ctx.note(f"R30.2/R30.3: {nodes} steps explored: {dict(sorted(seen.items()))}")
+    # ---- QuicStreamLayer reports the ids it was created with / bound to
+    qs = ctx.func(RAW, "QuicStreamLayer.stream_id")
+    ctx.func(RAW, "QuicStreamLayer.__init__")
+    ctx.func(RAW, "QuicStreamLayer.open_server_stream")
+    w = World(ctx, CS)
+    res = []
+    for cid, sid in ((1004, 2000), (1001, 2005), (1002, 2006), (1007, 2003)):
+        try:
+            L = w.new_stream_layer(cid)
+            before = (w.sid_of(L, "client"), w.sid_of(L, "server"))
+            w.it.method(L, "open_server_stream", sid)
+            after = (w.sid_of(L, "client"), w.sid_of(L, "server"))
+        except PyRaised as r:
+            before = after = f"raises {r.name}"
+        if (before, after) != ((cid, None), (cid, sid)):
+            res.append(f"QuicStreamLayer(stream_id={cid}) reports (client id, server id) = {before}, after open_server_stream({sid}) = {after}; expected ({cid}, None) and ({cid}, {sid})")
+    ctx.check(not res, "R30.2", (RAW, "QuicStreamLayer.stream_id", qs), "stream_id(client) reports the client id given at creation / the server id bound by open_server_stream",
+              res[0] if res else "", desc="stream_id(True) -> client id, stream_id(False) -> bound server id (None before)")
 
 
 # ---------------------------------------------------------------------------------------------------
@@ -426,8 +1071,43 @@ class MapUses:
     def __init__(self, mod):
         self.mod = mod
         self.aliases = {}  # scope node -> {local name: set of map names}
+        self.returns = {}  # function node -> set of map names it may return
+        self.helpers = {}  # name of a function of this module a map is passed to / returned by -> how
         self.nodes = list(ast.walk(mod.tree))
         self._fix_aliases()
+
+    def callee(self, call):
+        """the function of THIS module a call certainly runs: `self.m(...)` -> method m of the enclosing class, `f(...)` -> module-level f;
+        -> (function node, number of leading parameters bound implicitly) or None"""
+        f = call.func
+        if isinstance(f, ast.Attribute) and isinstance(f.value, ast.Name) and f.value.id == "self":
+            c = getattr(call, "_parent", None)
+            while c is not None and not isinstance(c, ast.ClassDef):
+                c = getattr(c, "_parent", None)
+            if c is not None:
+                for st in c.body:
+                    if isinstance(st, ast.FunctionDef) and st.name == f.attr and not st.decorator_list:
+                        return st, 1
+        elif isinstance(f, ast.Name):
+            d = self.mod.get(f.id)
+            if isinstance(d, ast.FunctionDef) and not d.decorator_list:
+                return d, 0
+        return None
+
+    @staticmethod
+    def param_for(fn, skip, call, arg):
+        """the parameter of ``fn`` that receives the argument expression ``arg`` of ``call`` (None: not a plain parameter)"""
+        a = fn.args
+        params = [p.arg for p in a.posonlyargs + a.args]
+        for i, x in enumerate(call.args):
+            if isinstance(x, ast.Starred):
+                return None
+            if x is arg:
+                return params[i + skip] if i + skip < len(params) else None
+        for k in call.keywords:
+            if k.value is arg:
+                return k.arg if k.arg in params[skip:] + [p.arg for p in a.kwonlyargs] else None
+        return None
 
     def maps_of(self, e, scope):
         """the maps an expression may evaluate to (empty: none)"""
@@ -444,6 +1124,10 @@ class MapUses:
             return out
         if isinstance(e, ast.NamedExpr):
             return self.maps_of(e.value, scope)
+        if isinstance(e, ast.Call):
+            c = self.callee(e)
+            if c is not None:
+                return set(self.returns.get(c[0], ()))
         return set()
 
     def _bind(self, target, value, scope):
@@ -478,6 +1162,25 @@ class MapUses:
                     if isinstance(it, (ast.Tuple, ast.List, ast.Set)):
                         for v in it.elts:
                             changed |= self._bind(n.target, v, sc)
+                elif isinstance(n, ast.Call):
+                    # a map handed to a helper of this module: the helper's parameter is an alias inside the helper
+                    c = self.callee(n)
+                    if c is not None:
+                        for arg in list(n.args) + [k.value for k in n.keywords]:
+                            got = self.maps_of(arg, sc)
+                            prm = self.param_for(c[0], c[1], n, arg) if got else None
+                            if prm is not None:
+                                cur = self.aliases.setdefault(c[0], {}).setdefault(prm, set())
+                                if not got <= cur:
+                                    cur |= got
+                                    changed = True
+                elif isinstance(n, ast.Return) and n.value is not None and isinstance(sc, ast.FunctionDef):
+                    # a helper that returns a map: its calls denote the map
+                    got = self.maps_of(n.value, sc)
+                    cur = self.returns.setdefault(sc, set())
+                    if not got <= cur:
+                        cur |= got
+                        changed = True
             if not changed:
                 return
         raise AnalysisError(f"{self.mod.rel}: alias analysis of the stream-id maps does not converge")
@@ -487,7 +1190,7 @@ class MapUses:
         for n in self.nodes:
             if isinstance(n, ast.Attribute) and n.attr in MAPS:
                 yield n, {n.attr}
-            elif isinstance(n, ast.Name) and not isinstance(n.ctx, ast.Store):
+            elif (isinstance(n, ast.Name) and not isinstance(n.ctx, ast.Store)) or isinstance(n, ast.Call):
                 got = self.maps_of(n, _scope(n))
                 if got:
                     yield n, got
@@ -501,7 +1204,7 @@ class MapUses:
             if isinstance(p, (ast.Assign, ast.AnnAssign)):
                 return "bind", norm(p)
             return "rebind", norm(p)
-        if isinstance(n.ctx, ast.Del):
+        if isinstance(getattr(n, "ctx", None), ast.Del):
             if isinstance(n, ast.Name):
                 return "read", "local alias unbound"
             return "remove", norm(n._parent)
@@ -547,7 +1250,14 @@ class MapUses:
         if isinstance(p, ast.Call) and top is not p.func:
             if isinstance(p.func, ast.Name) and p.func.id in PURE_CALLEES:
                 return "read", norm(p)
+            c = self.callee(p)
+            if c is not None and self.param_for(c[0], c[1], p, top) is not None:
+                self.helpers[c[0].name] = f"receives the map as `{self.param_for(c[0], c[1], p, top)}`"
+                return "alias", f"passed to {norm(p.func)}() as {self.param_for(c[0], c[1], p, top)}"
             return "escape", f"passed to {norm(p.func)}"
+        if isinstance(p, ast.Return) and isinstance(_scope(p), ast.FunctionDef) and not _scope(p).decorator_list:
+            self.helpers[_scope(p).name] = "returns the map"
+            return "alias", f"returned by {_scope(p).name}()"
         if isinstance(p, (ast.For, ast.AsyncFor, ast.comprehension)) and p.iter is top:
             return "read", "iteration"
         if isinstance(p, (ast.If, ast.While, ast.Assert)) and p.test is top:
@@ -569,7 +1279,7 @@ def is_empty_dict(v):
 
 def check_r304(ctx):
     binds = {m: [] for m in MAPS}
-    seen = {"read": 0, "add": 0, "alias": 0}
+    seen = {m: {"read": 0, "add": 0, "alias": 0} for m in MAPS}
     rels = sorted({p.relative_to(ctx.model.repo).as_posix() for p in (ctx.model.repo / "mitmproxy").rglob("*.py")} | {r for r in ctx.model.overrides if r.startswith("mitmproxy/")})
     for rel in rels:
         if rel.startswith("mitmproxy/contrib/") or not any(m in ctx.model.source(rel) for m in MAPS):
@@ -596,8 +1306,25 @@ def check_r304(ctx):
                          f"`{text}` forgets a registered stream id: QUIC never reuses stream ids, but a late event for it (RESET_STREAM after FIN, data after STOP_SENDING) "
                          "is then no longer attributed to the layer that owns the stream - a second stream layer and a second paired stream are created")
             else:
-                seen[kind] += 1
+                for mname in maps:
+                    seen[mname][kind] += 1
                 ctx.ok("R30.4", f"[{qual}] {names}: {kind}: {text[:70]}")
+        # a helper the maps flow through is followed at its direct calls in its own module only: nobody else may get hold of it
+        for name, how in uses.helpers.items():
+            for n in uses.nodes:
+                ref = (isinstance(n, ast.Attribute) and n.attr == name) or (isinstance(n, ast.Name) and n.id == name)
+                if ref and not (isinstance(n._parent, ast.Call) and n._parent.func is n and uses.callee(n._parent) is not None):
+                    raise AnalysisError(f"{mod.rel}:{n.lineno} `{name}` ({how}) is referenced other than by a direct call: stream-id map escapes the use classification of R30.4")
+            # (another module reaches a method by attribute access / getattr, a module-level function only through the defining module)
+            is_method = any(isinstance(d, ast.FunctionDef) and d.name == name and isinstance(d._parent, ast.ClassDef) for d in uses.nodes)
+            stem = rel.rsplit("/", 1)[-1][:-3]
+            pat = re.compile(rf"(\.\s*{re.escape(name)}\b|['\"]{re.escape(name)}['\"])" if is_method else rf"\b{re.escape(name)}\b")
+            for other in rels:
+                if other == rel or other.startswith("mitmproxy/contrib/"):
+                    continue
+                src = ctx.model.source(other)
+                if pat.search(src) and (is_method or re.search(rf"\b{re.escape(stem)}\b", src)):
+                    raise AnalysisError(f"{other} mentions `{name}`, a helper of {mod.rel} that {how}: stream-id map escapes the use classification of R30.4")
     for m in MAPS:
         if len(binds[m]) != 1 and not any(f.rule == "R30.4" for f in ctx.findings):
             if not binds[m]:
@@ -605,7 +1332,9 @@ def check_r304(ctx):
             ctx.fail("R30.4", (binds[m][1][0], binds[m][1][1], 0), f"{m} is bound once, to an empty dict, in RawQuicLayer.__init__",
                      f"{m} is bound {len(binds[m])} times ({[b[1] for b in binds[m]]})")
     if not any(f.rule == "R30.4" for f in ctx.findings):
-        ctx.require(seen["add"] >= 3 and seen["read"] >= 2, f"R30.4: only {seen} uses of the stream-id maps classified (registration / lookup anchors moved)")
+        # (where and how often entries are stored / looked up is R30.2 / R30.3's business; here only: the classification saw the maps in use)
+        for m in MAPS:
+            ctx.require(seen[m]["add"] >= 1 and seen[m]["read"] >= 1, f"R30.4: no store into / no lookup in {m} classified ({seen[m]}): registration / lookup anchors moved")
 
 
 def _ancestors(n, stop):
@@ -617,39 +1346,6 @@ def _ancestors(n, stop):
 
 # ---------------------------------------------------------------------------------------------------
 # R30.5: initial capabilities of the two halves = function of the stream id class
-
-CONN = "mitmproxy/connection.py"
-
-
-def connection_state_flag(ctx):
-    """the ConnectionState Flag, rebuilt from the class body in mitmproxy/connection.py"""
-    cls = ctx.model.cls(CONN, "ConnectionState")
-    vals = {}
-
-    def ev(e):
-        if isinstance(e, ast.Constant) and isinstance(e.value, int) and not isinstance(e.value, bool):
-            return e.value
-        if isinstance(e, ast.Name) and e.id in vals:
-            return vals[e.id]
-        if isinstance(e, ast.BinOp) and isinstance(e.op, (ast.BitOr, ast.BitAnd, ast.LShift)):
-            a, b = ev(e.left), ev(e.right)
-            return a | b if isinstance(e.op, ast.BitOr) else (a & b if isinstance(e.op, ast.BitAnd) else a << b)
-        raise AnalysisError(f"ConnectionState member value not modelled: {norm(e)}")
-
-    for st in cls.body:
-        if isinstance(st, ast.Assign) and len(st.targets) == 1 and isinstance(st.targets[0], ast.Name):
-            vals[st.targets[0].id] = ev(st.value)
-    ctx.require({"CLOSED", "CAN_READ", "CAN_WRITE", "OPEN"} <= set(vals), f"ConnectionState members changed: {sorted(vals)}")
-    r, w = vals["CAN_READ"], vals["CAN_WRITE"]
-    ctx.require(vals["CLOSED"] == 0 and r and w and not (r & w) and vals["OPEN"] == r | w and bin(r).count("1") == 1 and bin(w).count("1") == 1,
-                f"ConnectionState is no longer CLOSED=0 / two distinct bits / OPEN = both: {vals}")
-    return enum.Flag("ConnectionState", {k: v for k, v in vals.items()})
-
-
-class _Clock:
-    @staticmethod
-    def time():
-        return 1.0
 
 
 def half_table(CS):
@@ -667,90 +1363,81 @@ def substates(CS, s):
     return [x for x in (CS.OPEN, CS.CAN_READ, CS.CAN_WRITE, CS.CLOSED) if (x & s) == x]
 
 
-def _interp(ctx, CS, extra_externals=None):
-    it = Interp(ctx.model, trusted_modules={"time": _Clock}, externals=extra_externals or {}, max_steps=20000)
-    it.overrides[(RAW, "stream_is_unidirectional")] = lambda sid: bool(sid & 2)
-    it.overrides[(RAW, "stream_is_client_initiated")] = lambda sid: not (sid & 1)
-    return it
-
-
-def check_r305(ctx):
-    CS = connection_state_flag(ctx)
+def check_r305(ctx, CS):
     table = half_table(CS)
     qi = ctx.func(RAW, "QuicStreamLayer.__init__")
     qo = ctx.func(RAW, "QuicStreamLayer.open_server_stream")
-    ctx.require([a.arg for a in qo.args.args] == ["self", "server_stream_id"], "open_server_stream signature changed")
-    ctx.require([a.arg for a in qi.args.args] == ["self", "context", "force_raw", "stream_id"], "QuicStreamLayer.__init__ signature changed")
     ids = {cls: [b, b + 4, b + 4 * 37] for cls, b in (((False, True), 0), ((False, False), 1), ((True, True), 2), ((True, False), 3))}
     name = {(False, True): "bidirectional client-initiated", (False, False): "bidirectional server-initiated",
             (True, True): "unidirectional client-initiated", (True, False): "unidirectional server-initiated"}
-    n = 0
+    w = World(ctx, CS)
+
+    def half(L, side):
+        c = L.__dict__.get(side)
+        if not isinstance(c, Rec) or "state" not in c.__dict__:
+            raise AnalysisError(f"QuicStreamLayer.{side} is no connection with a state after construction (anchor moved)")
+        return c
+
+    def layer(cid, real):
+        w.it.steps = 0
+        del w.it.writes[:]
+        object.__setattr__(w.real["client"], "state", real)
+        try:
+            return w.new_stream_layer(cid)
+        except PyRaised as r:
+            raise AnalysisError(f"QuicStreamLayer(stream_id={cid}) raises {r.name} in the R30.5 evaluation (not modelled)")
 
     # --- server half: open_server_stream(server_stream_id), the client half being in any state it can have reached
     bad = {}
+    n = 0
     for cls, sids in ids.items():
         for sid in sids:
             for cstate in substates(CS, table[cls][0]):
-                for sprev in (CS.CLOSED,):
-                    it = _interp(ctx, CS, {"self.refresh_metadata": lambda: None})
-                    it.overrides[(RAW, "connection")] = Rec("connection", ConnectionState=CS)
-                    me = Rec("QuicStreamLayer", _impl=(RAW, "QuicStreamLayer"), _client_stream_id=sid ^ 0, _server_stream_id=None,
-                             client=Rec("Client", state=cstate, timestamp_start=1.0, timestamp_end=None),
-                             server=Rec("Server", state=sprev, timestamp_start=None, timestamp_end=None), child_layer=None)
+                snap = _snap(w.roots())
+                try:
+                    L = layer(sid + 8, CS.OPEN)  # the client id of a paired stream has the same class
+                    object.__setattr__(half(L, "client"), "state", cstate)
                     try:
-                        it.method(me, "open_server_stream", sid)
+                        w.it.method(L, "open_server_stream", sid)
                     except PyRaised as r:
                         raise AnalysisError(f"open_server_stream({sid}) raises {r.name} in the R30.5 evaluation (not modelled)")
                     n += 1
-                    got = me.server.state
+                    got = half(L, "server").state
                     if not isinstance(got, CS):
                         raise AnalysisError(f"open_server_stream leaves server.state = {got!r} (no ConnectionState)")
                     if got != table[cls][1]:
                         bad.setdefault(name[cls], (sid, cstate, got, table[cls][1]))
+                finally:
+                    _unsnap(snap)
     for k, (sid, cstate, got, want) in bad.items():
         ctx.fail("R30.5", (RAW, "QuicStreamLayer.open_server_stream", qo), f"server half of a {k} stream starts as {want.name}",
                  f"open_server_stream({sid}) while the client half is {cstate.name} leaves server.state = {got.name}, expected {want.name}: "
-                 + ("event_to_child drops SendData and the FIN for a connection without CAN_WRITE - the stream's data never reaches the paired server stream"
+                 + ("the command translation drops SendData and the FIN for a connection without CAN_WRITE - the stream's data never reaches the paired server stream"
                     if (want & CS.CAN_WRITE) and not (got & CS.CAN_WRITE) else "the capability of a half must follow from the stream id class alone (RFC 9000 s.2.1)"))
     if not bad:
         ctx.ok("R30.5", f"open_server_stream: server half = f(id class) for {n} (server id, client state) cases: bidi OPEN, uni client-initiated CAN_WRITE, uni server-initiated CAN_READ")
 
-    # --- client half: __init__(context, force_raw, stream_id), the real client connection being in any state
+    # --- client half: QuicStreamLayer(context, force_raw, stream_id), the real client connection being in any state
     bad = {}
     m = 0
     for cls, sids in ids.items():
         for sid in sids:
             for real in (CS.OPEN, CS.CAN_READ, CS.CAN_WRITE, CS.CLOSED):
-                child = Rec("ChildLayer", handle_event="handle_event", _handle_event="_handle_event", flow=None, layer=None)
-                it = _interp(ctx, CS, {"self.refresh_metadata": lambda: None, "super().__init__": lambda *a, **k: None,
-                                       "TCPLayer": lambda *a, **k: child, "QuicStreamNextLayer": lambda *a, **k: child})
-
-                def server_conn(**kw):
-                    return Rec("Server", state=CS.CLOSED, timestamp_start=None, timestamp_end=None, **{k: v for k, v in kw.items() if k not in ("state",)})
-
-                it.overrides[(RAW, "connection")] = Rec("connection", ConnectionState=CS, Server=server_conn)
-
-                def client_copy(real=real):
-                    return Rec("Client", state=real, transport_protocol="udp", timestamp_start=1.0, timestamp_end=None)
-
-                context = Rec("Context", client=Rec("Client", state=real, transport_protocol="udp", copy=client_copy),
-                              server=Rec("Server", address=("example", 443), state=CS.OPEN), layers=[], options=None)
-                me = Rec("QuicStreamLayer", _impl=(RAW, "QuicStreamLayer"))
+                snap = _snap(w.roots())
                 try:
-                    it.method(me, "__init__", context, True, sid)
-                except PyRaised as r:
-                    raise AnalysisError(f"QuicStreamLayer.__init__(stream_id={sid}) raises {r.name} in the R30.5 evaluation (not modelled)")
-                m += 1
-                cl = me.__dict__.get("client")
-                got = getattr(cl, "state", None) if isinstance(cl, Rec) else None
-                if not isinstance(got, CS):
-                    raise AnalysisError(f"QuicStreamLayer.__init__ leaves client.state = {got!r} (no ConnectionState)")
-                if got != table[cls][0]:
-                    bad.setdefault(name[cls], (sid, real, got, table[cls][0]))
+                    L = layer(sid, real)
+                    m += 1
+                    got = half(L, "client").state
+                    if not isinstance(got, CS):
+                        raise AnalysisError(f"QuicStreamLayer.__init__ leaves client.state = {got!r} (no ConnectionState)")
+                    if got != table[cls][0]:
+                        bad.setdefault(name[cls], (sid, real, got, table[cls][0]))
+                finally:
+                    _unsnap(snap)
     for k, (sid, real, got, want) in bad.items():
         ctx.fail("R30.5", (RAW, "QuicStreamLayer.__init__", qi), f"client half of a {k} stream starts as {want.name}",
                  f"QuicStreamLayer(stream_id={sid}) with the QUIC client connection {real.name} leaves client.state = {got.name}, expected {want.name}: "
-                 "the capability of a half must follow from the stream id class alone (RFC 9000 s.2.1); event_to_child sends only under CAN_WRITE, the child finishes by CAN_READ")
+                 "the capability of a half must follow from the stream id class alone (RFC 9000 s.2.1); commands are sent only under CAN_WRITE, the child finishes by CAN_READ")
     if not bad:
         ctx.ok("R30.5", f"QuicStreamLayer.__init__: client half = f(id class) for {m} (client id, real connection state) cases: bidi OPEN, uni client-initiated CAN_READ, uni server-initiated CAN_WRITE")
     ctx.cells += n + m
@@ -762,14 +1449,16 @@ def check(ctx):
     ctx.rule("R30.3", "commands on a stream's virtual connection are translated to the real connection / stream id of the same side; OpenConnection pairs the server id")
     ctx.rule("R30.4", "the stream-id maps only grow: bound once (empty) in RawQuicLayer.__init__, no removal / re-binding anywhere (late events must find the owning layer)")
     ctx.rule("R30.5", "initial read/write capability of a stream's client and server half is the RFC 9000 function of the stream id class alone")
-    ctx.assume("stream ids are ints (event.stream_id and allocator results are never None)")
+    ctx.assume("stream ids are ints (event.stream_id and allocator results are never None); peers keep to RFC 9000 (no data on a stream they may not send on, none after their own FIN)")
     ctx.trust("aioquic stream_is_unidirectional / stream_is_client_initiated implement the RFC 9000 id bits")
-    check_r301(ctx)
-    check_r302(ctx)
-    check_r303(ctx)
+    ctx.trust("child layers relay like TCPLayer: Start -> OpenConnection(server) when closed, data -> SendData(other half), ConnectionClosed -> close of the other half")
+    _memoise(ctx.model)
+    CS = connection_state_flag(ctx)
+    check_r301(ctx, CS)
+    check_r3023(ctx, CS)
     ctx.guard(check_r304, ctx)
-    ctx.guard(check_r305, ctx)
-    for rule, n in (("R30.1", 2), ("R30.2", 15), ("R30.3", 7), ("R30.4", 9), ("R30.5", 2)):
+    ctx.guard(check_r305, ctx, CS)
+    for rule, n in (("R30.1", 2), ("R30.2", 8), ("R30.3", 3), ("R30.4", 6), ("R30.5", 2)):
         if not any(f.rule == rule for f in ctx.findings):
             ctx.expect_instances(rule, n)
 
@@ -794,7 +1483,12 @@ MUTANTS = [
     Mutant("reset-on-own-stream-id", RAW, "and command.stream_id == stream_layer.stream_id(not from_client)", "and command.stream_id == stream_layer.stream_id(from_client)", "R30.2"),
     Mutant("reset-error-code-dropped", RAW, "                            command.connection, command.stream_id, event.error_code\n", "                            command.connection, command.stream_id, 0\n", "R30.2"),
     Mutant("stream-id-selector-inverted", RAW, "        return self._client_stream_id if client else self._server_stream_id", "        return self._server_stream_id if client else self._client_stream_id", "R30.2"),
+    Mutant("connection-close-ends-other-half", RAW, "                    (conn is child_layer.client)\n                    if from_client\n                    else (conn is child_layer.server)\n",
+           "                    (conn is child_layer.server)\n                    if from_client\n                    else (conn is child_layer.client)\n", "R30.2"),
+    Mutant("end-of-stream-clears-can-write", RAW, "        conn.state &= ~connection.ConnectionState.CAN_READ\n", "        conn.state &= ~connection.ConnectionState.CAN_WRITE\n", "R30.2"),
     # R30.3
+    Mutant("stop-sending-on-paired-stream-id", RAW, "                                quic_conn, stream_id, QuicErrorCode.NO_ERROR\n", "                                quic_conn, child_layer.stream_id(not to_client), QuicErrorCode.NO_ERROR\n", "R30.3"),
+    Mutant("server-half-commands-not-intercepted", RAW, "                    or command.connection is child_layer.server\n", "                    or command.connection is child_layer.client\n", "R30.3"),
     Mutant("translate-to-other-real-connection", RAW, "                quic_conn = self.context.client if to_client else self.context.server\n", "                quic_conn = self.context.server if to_client else self.context.client\n", "R30.3"),
     Mutant("translate-with-other-sides-stream-id", RAW, "                stream_id = child_layer.stream_id(to_client)\n", "                stream_id = child_layer.stream_id(not to_client)\n", "R30.3"),
     Mutant("fin-carries-no-end-stream", RAW, "                            quic_conn, stream_id, b\"\", end_stream=True\n", "                            quic_conn, stream_id, b\"\"\n", "R30.3"),
